@@ -60,7 +60,7 @@ def m_clap_matches(ex, a, m):
 @model_rx(r'^(?:std::fs::)?File::open$')
 def m_file_open(ex, a, m):
     path = conc(ex, as_str(a[0])); ev(ex, 'open', path)
-    if cfgv(ex, 'open_fails:' + path, [False, True]): return err(Opaque('io::Error'))
+    if cfgv(ex, 'open_fails:' + path, [False, True]): return err(Opaque(('io::Error', 'os')))
     return ok(Agg('struct', 'File', None, [Cell(rstr(path))]))
 def _content(ex, path):
     return {'E': ex.u_expr, 'J': ex.u_json, 'stdin': ex.u_json}[path]
@@ -69,10 +69,32 @@ def m_read_to_string(ex, a, m):
     src = MM.deref_all(a[0])
     path = 'stdin' if m.group(1) == 'Stdin' else src.fields[0].v.concrete()
     ev(ex, 'read', path)
-    if cfgv(ex, 'read_fails:' + path, [False, True]): return err(Opaque('io::Error'))
+    k = cfgv(ex, 'read_fails:' + path, [False, 'os', 'data'])          # 'os': an error with an errno (EISDIR ...); 'data': one without (the stream is not valid UTF-8)
+    if k: return err(Opaque(('io::Error', k)))
     txt = _content(ex, path); buf = a[1].cell.v
     buf.chars.extend(list(txt))
     return ok(Int(len(''.join(c if isinstance(c, str) else '?' for c in txt).encode('utf-8')), 'usize'))
+@model_rx(r'^(?:std::io::)?(?:error::)?Error::(raw_os_error|kind)$')
+def m_io_error_query(ex, a, m):
+    e = MM.deref_all(a[0]) if isinstance(a[0], Ptr) else a[0]
+    if not (isinstance(e, Opaque) and isinstance(e.tag, tuple) and e.tag[0] == 'io::Error'): raise Unsupported('io::Error query on a foreign value')
+    if m.group(1) == 'raw_os_error': return some(Int(21, 'i32')) if e.tag[1] == 'os' else none()
+    raise Unsupported('io::Error::kind')
+@model_rx(r'^(?:std::io::)?(?:stdio::)?Stdin::lock$')
+def m_stdin_lock(ex, a, m): return Agg('struct', 'StdinLock', None, [])
+@model_rx(r'^<(?:std::io::)?StdinLock(?:<.*>)? as (?:std::io::)?BufRead>::lines$|^(?:std::io::)?(?:stdio::)?Stdin::lines$')
+def m_stdin_lines(ex, a, m):
+    """BufRead::lines over stdin: the text split at '\n' (a trailing '\r' removed from each line), or an error instead of the first line"""
+    ev(ex, 'read', 'stdin')
+    k = cfgv(ex, 'read_fails:stdin', [False, 'os', 'data'])
+    if k: return IterV(iter([err(Opaque(('io::Error', k)))]))
+    txt = list(_content(ex, 'stdin')); lines = [[]]
+    for c in txt:
+        if c == '\n': lines.append([])
+        elif not isinstance(c, str): raise Unsupported('BufRead::lines over a symbolic character')
+        else: lines[-1].append(c)
+    if lines and not lines[-1]: lines.pop()
+    return IterV(iter([ok(StrV(l[:-1] if l and l[-1] == '\r' else l)) for l in lines]))
 @model_rx(r'^(?:std::io::)?(stdin|stdout|stderr)$')
 def m_std_handles(ex, a, m): return Agg('struct', m.group(1).capitalize(), None, [])
 @model_rx(r'^<(?:std::io::)?(Stderr|Stdout) as (?:std::io::)?Write>::write_fmt$')
@@ -199,7 +221,7 @@ def cli_job(item):
             if not sat: m = None
         ex.u_model = m
         return {'op': 'cli', 'expr': text_of(ex.u_expr, m), 'json': text_of(ex.u_json, m), 'expr_src': cfg.get('expr_src', 'arg'), 'json_src': cfg.get('json_src', 'stdin'), 'ast': bool(cfg.get('ast')), 'unquoted': bool(cfg.get('unquoted')),
-                'faults': sorted(k for k, v in cfg.items() if v is True and ('fails' in k))}
+                'faults': sorted((k if v is True or v == 'os' else k + ':data') for k, v in cfg.items() if v and ('fails' in k))}
     def on_path(ex, r):
         S['paths'] += 1; S['outcomes'][r[0]] += 1
         if r[0] == 'abort': return
@@ -235,6 +257,7 @@ def run_jp(req, profile='dev'):
             p = os.path.join(d, name)
             if 'open_fails:' + tag in req['faults']: return p
             if 'read_fails:' + tag in req['faults']: os.mkdir(p); return p
+            if 'read_fails:' + tag + ':data' in req['faults']: open(p, 'wb').write(b'\xff\xfe{'); return p          # not UTF-8: read_to_string fails without an errno
             open(p, 'w', encoding='utf-8').write(txt); return p
         args = [JP[profile]]
         if req['ast']: args.append('--ast')
@@ -242,7 +265,8 @@ def run_jp(req, profile='dev'):
         if req['json_src'] == 'file': args += ['-f', mk('input.json', req['json'], 'J')]
         if req['expr_src'] == 'file': args += ['-e', mk('expr.txt', req['expr'], 'E')]
         else: args += ['--', req['expr']]
-        if 'read_fails:stdin' in req['faults']:
+        if 'read_fails:stdin:data' in req['faults']: r = subprocess.run(args, input=b'\xff\xfe{', capture_output=True, timeout=20)
+        elif 'read_fails:stdin' in req['faults']:
             fd = os.open(d, os.O_RDONLY)
             try: r = subprocess.run(args, stdin=fd, capture_output=True, timeout=20)
             finally: os.close(fd)
@@ -257,7 +281,7 @@ def native_verdict(req, a, lib):
     if not fails and lib.get('stage') == 'compile': fails = True
     if not fails and not req['ast']:
         src = 'J' if req['json_src'] == 'file' else 'stdin'
-        if ('open_fails:J' in req['faults'] and src == 'J') or ('read_fails:' + src) in req['faults']: fails = True
+        if ('open_fails:J' in req['faults'] and src == 'J') or ('read_fails:' + src) in req['faults'] or ('read_fails:' + src + ':data') in req['faults']: fails = True
         elif lib.get('class') == 'fail': fails = True
     if a['code'] < 0 or a['code'] == 101 or 'panicked at' in a['stderr']: return 'jp panics / is killed'
     if fails:
@@ -282,9 +306,10 @@ def confirm(c, nd, nr):
     return bad, obs
 
 EXPRS = ['a', '@', 'a.b', 'a[0]', 'a[*].b', 'length(a)', 'a == `1`', '[a, b]', '{x: a}', 'keys(@)', "'lit'", '`"q\\"uote"`', 'a || `"é"`', 'to_string(a)', 'join(`", "`, a)', 'a[?b]', 'sort(a)', 'type(@)', 'not_null(a, `"dflt"`)',
+         'a\n  .b\n', '\na', 'a |\n [0]', 'a\n', 'a\r\n',
          'a.', 'nosuch(a)', 'abs(a)', 'a[::0]', '', ' ', 'a ', '"unterminated', '`[1`', 'length(@, @)', '&a', 'to_number(a)', 'a | [0]', 'max_by(a, &b)']
 JSONS = ['{"a": 1}', '{"a": "str"}', '{"a": "é \\" \\\\ \\n \\u0001 \\ud834\\udd1e"}', '{"a": [1, 2.5, -3, 1e100, 18446744073709551615, -9223372036854775808]}', '{"a": {"b": [true, false, null]}}', '{"a": [{"b": 1}, {"b": "x"}, {}]}', '"top"', '[]', '{}', 'null', '{"a": []}',
-         '{"a": ["x", "y"]}', '', '{', '{"a": 1} trailing', '[1, 2', 'nul', '{"a": 1.0, "b": 1e-7}', ' {"a": "\\t"} \n']
+         '{"a": ["x", "y"]}', '', '{', '{"a": 1} trailing', '[1, 2', 'nul', '{"a": 1.0, "b": 1e-7}', ' {"a": "\\t"} \n', '1\n2\n', '[1\n2]', '{"a": "x\ny"}', '{"a":\r\n 1}\r\n', '{"a": tr\nue}']
 
 def run(run):
     global PROG, SEED
